@@ -39,7 +39,7 @@ def cases(tier, seed):
     R = random.Random("c19/%d" % seed)
     out = []
     ks = [1, 2, 4, 8]
-    profs = ["natural", "slow_workers", "late_start", "jitter"]
+    profs = ["natural", "slow_workers", "late_start", "jitter", "slow_feeder", "slow_isset", "slow_feeder", "slow_isset", "stall"]
 
     def add(stage, item, **kw):
         s = dict(stage=stage, item=item, par=kw.pop("par", None) or R.choice(ks), exc=R.choice(EXC), profile=R.choice(profs), seed=R.randrange(1 << 30))
@@ -83,6 +83,11 @@ def cases(tier, seed):
             add(st, list(allp[-1]), depth=d, par=k, late=0.15, profile="slow_workers")
             if st != "walk":
                 add(st, "ALL", depth=d, par=k, late=0.05, profile="natural")
+    # siblings of the failing worker are terminated while they are inside Event.is_set (holding the event's lock)
+    for k in (2, 4, 8) if tier == "quick" else (2, 2, 3, 4, 4, 8, 8, 16):
+        for st, d in (("walk", 2), ("walk", 3), ("leaves", 2), ("doone", 2)):
+            allp = rq.all_positions(d, d) if st == "leaves" else (rq.all_positions(d) if st == "doone" else rq.all_positions(d - 1))
+            add(st, list(R.choice(allp)), depth=d, par=k, profile="slow_isset")
     for k in (1, 2) if tier == "quick" else (1, 2, 2, 4):
         add("subprocess_cascade", [2, R.randrange(4), R.randrange(4)], depth=2, par=k, fmt=R.choice(["npy", "png"]))
     for k in (1, 2) if tier == "quick" else (1, 2, 4, 8):
